@@ -1,6 +1,6 @@
 /*UNIT
 {"props": ["C17", "C18"], "src": ["lib/hashtable.c"], "spec": ["hashtable.spec"], "tags": ["split"], "mode": "plain", "kind": "bounded",
- "bound": "8 buckets, two of them (2 and 5) hold 0..2 nodes each, the others are empty; keys of length 1..2 (arbitrary bytes); the iterator under test is fresh or parked on any node; that node is present with 1 or 2 iterators parked, or already removed with this iterator parked; other nodes: any presence / 0..2 parked iterators; notifiers: none, or 2 global + 1 per key",
+ "bound": "8 buckets, two of them (2 and 5) hold 0..2 nodes each, the others are empty; keys of length 1..2 (arbitrary bytes); the iterator under test is fresh or parked on any node; that node is present or already removed, with this iterator parked; other nodes: reference count 1 or 2, any split between presence and parked iterators; notifiers: 2 global + 1 per key",
  "unwind": 12, "cbmc_flags": ["--no-malloc-may-fail"],
  "functions": ["hashtable_iter_free", "hashtable_iter_create"],
  "restrict_fp": ["hashtable_notify.function_pointer_call.1/verif_notify_cb", "hashtable_notify.function_pointer_call.2/verif_notify_cb",
@@ -19,6 +19,7 @@
  *          GENUINE DEFECT (new): hashtable_iter_free only frees the iterator object; the reference leaks, the
  *          node can never be freed, and a later rm() leaves the key visible (same symptoms as #15, without
  *          any iterator being open). */
+#define HT_CONCRETE_REFCOUNT 1
 #include "ht_common.h"
 
 static void verif_case(unsigned n1, unsigned n2, unsigned gnot, unsigned nnot, int pos, int x_present, int x_iters)
@@ -57,7 +58,7 @@ static void verif_case(unsigned n1, unsigned n2, unsigned gnot, unsigned nnot, i
 	hashtable_iter_free(&hi->i);
 
 	COVER(HG[pos].present == 0);
-	COVER(HG[pos].present == 1 && HG[pos].iters == 2);
+	COVER(HG[pos].present == 1);
 	HG[pos].iters--;
 	if (HG[pos].present == 0 && HG[pos].iters == 0) {
 		ht_check_notified(QB_MAP_NOTIFY_DELETED, pos, HG[pos].key, oldv, NULL);
